@@ -56,6 +56,7 @@ class TokWire:
         self.depth = 0
         self.raised = False
         self.returned = False
+        self.packed: Dict[str, ast.Call] = {}
 
     # ---- formats ------------------------------------------------------------------------------------------------------------
     def struct_fmt(self, e: ast.AST) -> str:
@@ -92,18 +93,25 @@ class TokWire:
     def expr(self, e: Optional[ast.AST], bind: Optional[ast.AST] = None) -> List[Any]:
         if e is None:
             return []
-        if isinstance(e, (ast.ListComp, ast.GeneratorExp, ast.SetComp)):
-            head: List[Any] = []
-            for g in e.generators:
-                head += self.expr(g.iter)
-            inner = self.expr(e.elt)
-            return head + ([('star', inner)] if inner else [])
-        if isinstance(e, ast.DictComp):
-            head = []
-            for g in e.generators:
-                head += self.expr(g.iter)
-            inner = self.expr(e.key) + self.expr(e.value)
-            return head + ([('star', inner)] if inner else [])
+        if isinstance(e, (ast.ListComp, ast.GeneratorExp, ast.SetComp, ast.DictComp)):
+            # generator k's iterable is evaluated once per iteration of the generators before it: nest accordingly.
+            # `for x in [<single expr>]` is a binding, not a loop.
+            def nest(gens: List[ast.comprehension]) -> List[Any]:
+                if not gens:
+                    if isinstance(e, ast.DictComp):
+                        return self.expr(e.key) + self.expr(e.value)
+                    return self.expr(e.elt)
+                g = gens[0]
+                head = self.expr(g.iter, g.target)
+                inner: List[Any] = []
+                for cond in g.ifs:
+                    inner += self.expr(cond)
+                inner += nest(gens[1:])
+                once = isinstance(g.iter, (ast.List, ast.Tuple)) and len(g.iter.elts) == 1
+                if once:
+                    return head + inner
+                return head + ([('star', inner)] if inner else [])
+            return nest(list(e.generators))
         if isinstance(e, ast.IfExp):
             t = self.ex.ev(e.test)
             pre = self.expr(e.test)
@@ -223,6 +231,8 @@ class TokWire:
             return [Tok('SB;', node, [x])]
         if isinstance(x, ast.BinOp) and isinstance(x.op, ast.Add) and isinstance(x.right, ast.Constant) and x.right.value in (b'\0', b'\x00'):
             return [Tok('Z;', node, [x.left])]
+        if isinstance(x, ast.Name) and x.id in self.packed:
+            return self.written(self.packed[x.id], node)
         if isinstance(x, (ast.Name, ast.Attribute)):
             return [Tok('Rvar;', node, [x])]
         if isinstance(x, ast.Call) and isinstance(x.func, ast.Attribute) and x.func.attr in ('encode', 'getvalue', 'tobytes'):
@@ -268,6 +278,12 @@ class TokWire:
 
     def note_assign(self, tgt: ast.AST, val: ast.AST) -> None:
         if isinstance(tgt, ast.Name):
+            # `prefix = fmt.pack(...)` followed by `file.write(prefix)`: remember the packing call behind the local
+            is_pack = isinstance(val, ast.Call) and ((dotted(val.func) or '') in ('struct.pack', 'pack') or (isinstance(val.func, ast.Attribute) and val.func.attr == 'pack'))
+            if is_pack:
+                self.packed[tgt.id] = val
+            else:
+                self.packed.pop(tgt.id, None)
             v = self.ex.ev(val)
             if v is not UNKNOWN and isinstance(v, (int, str, bool, type(None))) or (v is not UNKNOWN and type(v).__name__ == 'EnumMember'):
                 self.env[tgt.id] = v
